@@ -5,9 +5,10 @@ PROP = {
     "technique": "in-package monitors on a wrapped in-memory PacketConn pair + offline BLAKE2b recomputation (Python hashlib) + race detector",
     "jobs": [
         job("obfs", "extras", "./obfs/", "obfs",
-            ["harness/extras/obfs/c13_salamander_test.go", "harness/extras/obfs/c13_concurrent_test.go"],
+            ["harness/extras/obfs/c13_salamander_test.go", "harness/extras/obfs/c13_concurrent_test.go",
+             "harness/extras/obfs/c13_alias_test.go"],
             "^TestVerifC13",
-            ["sal-keys", "sal-roundtrip", "sal-interop", "sal-concurrent"], race=True,
+            ["sal-keys", "sal-roundtrip", "sal-interop", "sal-concurrent", "sal-alias"], race=True,
             timeout_quick=600, timeout_thorough=3600),
     ],
     "race_oracle": True,
@@ -28,7 +29,13 @@ PROP = {
              "salts) and arbitrary 9..2048-byte datagrams, fed to the real deobfuscator. concurrent: 3 (quick) / 10 "
              "(thorough) rounds of 8 writers + 4 readers on one wrapped socket against a peer with 2 writers + 2 "
              "readers and a reference-packet injector, junk interleaved, under -race; round 0 repeats the 1..2040 "
-             "length sweep. Distinct & non-trivial = distinct (key, payload length, direction, junk pattern) for the "
+             "length sweep. alias (memory ownership): keys passed as windows of sentinel-filled buffers with spare "
+             "capacity 0/1/7/8/9/64 through both constructors - the caller's whole buffer must stay byte-identical after "
+             "construction and after every packet, and after the caller wipes/reuses its key buffer the socket must "
+             "still match the reference under the ORIGINAL key value; two keys carved from one config buffer, sockets "
+             "built in either order with interleaved traffic, must stay independent; payload / wire / output windows "
+             "passed to WriteTo, ReadFrom, Obfuscate, Deobfuscate: inputs unmodified, nothing written outside the "
+             "window. Distinct & non-trivial = distinct (key, payload length, direction, junk pattern) for the "
              "sequential parts, distinct delivered packet for the concurrent part, distinct (key, salt, length) for "
              "the offline checker. Wire log for the Python checker: quick logs every captured packet; thorough logs "
              "every sweep/boundary packet but only a deterministic sample of the rest (case index % 4 == 0 in the "
@@ -40,5 +47,6 @@ PROP = {
         "payloads longer than 2040 bytes and empty payloads are outside the property's range and are not exercised",
         "salts of the real obfuscator come from its own time-seeded PRNG and cannot be chosen; chosen salts are exercised in the interop direction only",
         "hashlib.blake2b (CPython stdlib) is a correct BLAKE2b",
+        "'the same key' is the key VALUE passed at construction; the wrapper may not write to, or keep a live view of, the caller's key/payload memory (Go slice-ownership convention); bytes inside an output buffer beyond the returned n may be used as scratch",
     ],
 }
